@@ -472,6 +472,63 @@ def r14_8(rep: Report) -> None:
     rep.extra['timebase_conversions'] = n
 
 
+def _emsg_roles(fn: ast.AST) -> tuple[str, str, str | None, str | None]:
+    """(time variable, window end, window start, event id variable) of the scheduling loop of
+    create_emsg_boxes, by role: the loop that builds EventMessageBox objects is `while T < END`; START is
+    what events before the window are tested against (`if T < START: ..continue`, `assert T >= START`,
+    `if T >= START: <emit>`, or the `T - START` of the version 0 delta); the id is what is stored under
+    'event_id'"""
+    loops = [n for n in ast.walk(fn) if isinstance(n, ast.While)]
+    emitting = [l for l in loops if any(isinstance(x, ast.Call) and (call_name(x) or '').endswith('EventMessageBox')
+                                        for x in ast.walk(l))] or loops
+    if not emitting:
+        raise AnalysisError('create_emsg_boxes: scheduling loop not found')
+    lp = emitting[0]
+    t0 = lp.test if isinstance(lp.test, ast.Compare) else (
+        lp.test.values[0] if isinstance(lp.test, ast.BoolOp) and isinstance(lp.test.values[0], ast.Compare) else None)
+    if t0 is None or not (len(t0.ops) == 1 and isinstance(t0.ops[0], ast.Lt) and isinstance(t0.left, ast.Name)
+                          and isinstance(t0.comparators[0], ast.Name)):
+        raise AnalysisError('create_emsg_boxes: the emitting loop is not `while t < end`')
+    tvar, end = t0.left.id, t0.comparators[0].id
+    start = None
+    for n in ast.walk(lp):
+        if isinstance(n, ast.If) and isinstance(n.test, ast.Compare) and len(n.test.ops) == 1 \
+                and isinstance(n.test.ops[0], ast.Lt) and norm(n.test.left) == tvar \
+                and isinstance(n.test.comparators[0], ast.Name) \
+                and any(isinstance(x, ast.Continue) for x in n.body):
+            start = n.test.comparators[0].id
+    if start is None:
+        for n in ast.walk(lp):
+            if isinstance(n, ast.Assert) and isinstance(n.test, ast.Compare) and len(n.test.ops) == 1 \
+                    and isinstance(n.test.ops[0], ast.GtE) and norm(n.test.left) == tvar \
+                    and isinstance(n.test.comparators[0], ast.Name):
+                start = n.test.comparators[0].id
+    if start is None:
+        for n in ast.walk(lp):
+            if isinstance(n, ast.If) and isinstance(n.test, ast.Compare) and len(n.test.ops) == 1 \
+                    and isinstance(n.test.ops[0], ast.GtE) and norm(n.test.left) == tvar \
+                    and isinstance(n.test.comparators[0], ast.Name) \
+                    and any(isinstance(x, ast.Call) and (call_name(x) or '').endswith('EventMessageBox')
+                            for b_ in n.body for x in ast.walk(b_)):
+                start = n.test.comparators[0].id
+    if start is None:
+        for n in ast.walk(lp):
+            if isinstance(n, ast.BinOp) and isinstance(n.op, ast.Sub) and norm(n.left) == tvar \
+                    and isinstance(n.right, ast.Name):
+                start = n.right.id
+    idvar = None
+    for n in ast.walk(lp):
+        if isinstance(n, ast.Dict):
+            for k, v in zip(n.keys, n.values):
+                if isinstance(k, ast.Constant) and k.value == 'event_id' and isinstance(v, ast.Name):
+                    idvar = v.id
+        if isinstance(n, ast.Call) and (call_name(n) or '').endswith('EventMessageBox'):
+            for k in n.keywords:
+                if k.arg == 'event_id' and isinstance(k.value, ast.Name):
+                    idvar = k.value.id
+    return tvar, end, start, idvar
+
+
 def r14_7(rep: Report) -> None:
     """bounded schedules: with count > 0 only the events 0 .. count-1 exist (the manifest lists
     range(count)).  Zone-domain proof that at every construction of an EventMessageBox in
@@ -504,6 +561,9 @@ def r14_7(rep: Report) -> None:
     zd = ZoneDomain(attr_roots=('self',), pure_calls=pure)
     verdicts: list[tuple[bool, str, ast.AST]] = []
     window: list[tuple[bool, bool, ast.AST]] = []
+    T_, END_, START_, ID_ = _emsg_roles(fn)
+    if START_ is None or ID_ is None:
+        raise AnalysisError('create_emsg_boxes: window start / event id variable not found')
 
     def on_stmt(st: ast.stmt, states) -> None:
         if isinstance(st, (ast.If, ast.While, ast.For, ast.Try, ast.With)):
@@ -513,19 +573,19 @@ def r14_7(rep: Report) -> None:
             return
         for z in states:
             z.close()
-            window.append((z.upper_diff('presentation_time', 'seg_end') <= -1,
-                           z.upper_diff('seg_start', 'presentation_time') <= 0, st))
+            window.append((z.upper_diff(T_, END_) <= -1,
+                           z.upper_diff(START_, T_) <= 0, st))
             lo, hi = z.bound('self.count')
             if hi <= 0:
                 verdicts.append((True, 'unbounded schedule', st))
-            elif z.upper_diff('event_id', 'self.count') <= -1:
+            elif z.upper_diff(ID_, 'self.count') <= -1:
                 verdicts.append((True, 'event_id <= count - 1', st))
             else:
-                d = z.upper_diff('event_id', 'self.count')
+                d = z.upper_diff(ID_, 'self.count')
                 verdicts.append((False, f'event_id - count <= {d:g}' if d < INF else 'event_id is not bounded by count', st))
 
     z0 = Zone()
-    for v in ('self.count', 'event_id', 'self.interval', 'self.start', 'self.timescale'):
+    for v in ('self.count', ID_, 'self.interval', 'self.start', 'self.timescale'):
         z0.ints.add(v)
     rep.axioms.append('event schedule fields (start, interval, count, timescale) are integers')
     Flow(Disjunctive(zd, cap=512), on_stmt=on_stmt).run(fn, [z0])
